@@ -288,8 +288,10 @@ Section Model.
       else if is_epoch && negb (signers_bytes mod addressLength =? 0) then RErr 15
       else
       let parent := c_header cs in
-      if negb (h_num parent =? sub64 (h_num h) 1) then RErr 9
-      else if negb (tobsc_ok parent) then RPanic                         (* parent.Hash() -> ToBscHeader *)
+      (* parent.Hash() -> ToBscHeader runs on EVERY path from here: in the comparison when the numbers match,
+         in the text of ErrUnknownAncestor when they do not *)
+      if negb (tobsc_ok parent) then RPanic
+      else if negb (h_num parent =? sub64 (h_num h) 1) then RErr 9
       else if negb (bytes_eqb (hdr_hash parent) (to_hash (h_parent h))) then RErr 9
       else if 9223372036854775807 <? h_gaslimit h then RErr 1
       else if h_gaslimit h <? h_gasused h then RErr 1
